@@ -548,6 +548,33 @@ fn fault_case(seed: u64, idx: u64, thorough: bool, stats: &mut Counts) -> Result
                 }
                 stats.inc("mt.fail_stop_at_lock_checked");
             }
+            // the same observation for a fault that fired in a background worker (journal rotation): measured only
+            if let Some((fk, None)) = fault_hits.iter().find(|(_, op)| op.is_none()).copied() {
+                for (dk, op) in &drawn_at {
+                    if *dk > fk {
+                        stats.inc("mt.critical_sections_after_worker_fault");
+                        if let Some((_, true)) = res.get(op) {
+                            stats.inc("mt.acknowledged_after_worker_fault");
+                            let frec = &run.recs[fk];
+                            return Err(Deviation::new(
+                                "fault:write-acknowledged-after-failure",
+                                format!(
+                                    "{what}: the injected error fired in a background thread ({} {}, trace record {fk}, inside the journal lock: no client was in its critical section); operation {} of client {} drew its seqno afterwards (record {dk}) and was acknowledged",
+                                    match frec.flags {
+                                        1 => "write",
+                                        2 => "fsync",
+                                        3 => "create",
+                                        _ => "call",
+                                    },
+                                    short_path(&frec.p1),
+                                    op.1,
+                                    op.0
+                                ),
+                            ));
+                        }
+                    }
+                }
+            }
             // fail-stop: a call that starts after an error was returned (to any thread) must fail
             let first_err_at = res.values().filter(|(_, ok)| !*ok).map(|(k, _)| *k).min();
             if let Some(fe) = first_err_at {
